@@ -492,8 +492,17 @@ func (p *untypedParamBinder) setSliceFieldValue(target reflect.Value, defaultVal
 		return nil
 	}
 	if sz == 0 {
-		target.Set(defVal)
-		return nil
+		items, isList := defaultValue.([]interface{})
+		if !isList || defVal.Type().AssignableTo(target.Type()) {
+			target.Set(defVal)
+			return nil
+		}
+		// a default read from a specification document is a generic list: its items are bound like sent items
+		data = make([]string, len(items))
+		for i, item := range items {
+			data[i] = fmt.Sprintf("%v", item)
+		}
+		sz = len(data)
 	}
 
 	value := reflect.MakeSlice(reflect.SliceOf(target.Type().Elem()), sz, sz)
